@@ -3,7 +3,6 @@
 
 use crate::verif_prelude::*;
 use crate::input::singleton::NotSingleton;
-use crate::zalsa::verif::any_zalsa;
 
 #[derive(Copy, Clone)]
 pub(crate) struct VInS(Id);
@@ -50,24 +49,23 @@ impl Configuration for VIn {
 }
 
 struct World {
-    zalsa: Zalsa,
+    rt: Runtime,
     ing: IngredientImpl<VIn>,
     id: Id,
     revs: [usize; 3],
 }
 
-/// An ingredient-free `Zalsa` in an arbitrary INV runtime state whose table holds one page of
-/// `Value<VIn>` with one allocated input: fields (1, 2), field revisions `r0`/`r1`, durabilities
-/// `d0`/`d1`.
+/// A bare `Runtime` in an arbitrary INV state whose table holds one page of `Value<VIn>` with one
+/// allocated input: fields (1, 2), field revisions `r0`/`r1`, durabilities `d0`/`d1`.
 fn world(d0: Durability, d1: Durability, r0: usize, r1: usize) -> World {
-    let (zalsa, revs) = any_zalsa();
+    let (rt, revs) = crate::runtime::verif::any_runtime();
     let ing = IngredientImpl::<VIn>::new(IngredientIndex::new(0));
-    let page = zalsa
+    let page = rt
         .table()
         .push_page::<Value<VIn>>(IngredientIndex::new(0), ing.memo_table_types.clone());
     // SAFETY: single-threaded; we are the unique writer of the page.
     let id = match unsafe {
-        zalsa.table().page::<Value<VIn>>(page).allocate(page, |_| Value::<VIn> {
+        rt.table().page::<Value<VIn>>(page).allocate(page, |_| Value::<VIn> {
             fields: (1, 2),
             revisions: [Revision::from(r0), Revision::from(r1)],
             durabilities: [d0, d1],
@@ -78,7 +76,7 @@ fn world(d0: Durability, d1: Durability, r0: usize, r1: usize) -> World {
         Ok((id, _)) => id,
         Err(_) => panic!("fresh page is full"),
     };
-    World { zalsa, ing, id, revs }
+    World { rt, ing, id, revs }
 }
 
 fn any_field_rev(now: usize) -> usize {
@@ -87,7 +85,14 @@ fn any_field_rev(now: usize) -> usize {
     r
 }
 
-// @verif prop=C02,C01,C03 obl=O2 tier=quick bounds="arbitrary INV runtime state (< 2^40) followed by one new revision; one page-backed input with 2 fields; symbolic old durability (LOW/MEDIUM/HIGH), other field's durability (any), optional new durability (any of 4), symbolic new value, symbolic previous field revisions"
+/// A `Zalsa` around the world's runtime (for the entry points that take a `&Zalsa`).
+fn into_zalsa(w: World) -> (Zalsa, IngredientImpl<VIn>, Id) {
+    let mut z = crate::zalsa::verif::minimal_zalsa();
+    std::mem::forget(std::mem::replace(z.runtime_mut(), w.rt));
+    (z, w.ing, w.id)
+}
+
+// @verif prop=C02,C01,C03 obl=O2 tier=quick bounds="arbitrary INV runtime state (< 2^40) followed by one new revision; one page-backed input with 2 fields; symbolic old durability (LOW/MEDIUM/HIGH), other field's durability (any), optional new durability (any of 4), symbolic new value; previous field revisions R1"
 // @+ encodes="input::IngredientImpl::<VIn>::set_field, IngredientImpl::data_raw, Table::get_raw, Table::get, Table::push_page, PageView::allocate, Page::new, split_id, make_id, Runtime::report_tracked_write, Runtime::new_revision, Runtime::last_changed_revision"
 /// C02-O2: the setter reports the field's *old* durability to the runtime (so everything <= old is marked changed now),
 /// installs the requested durability (or keeps the old one), stamps the field with the current revision and
@@ -99,39 +104,33 @@ fn c02_o2_set_field() {
     let old_d = any_durability3();
     let other_d = any_durability();
     let mut w = world(old_d, other_d, 1, 1);
-    let r0 = any_field_rev(w.revs[0]);
-    let r1 = any_field_rev(w.revs[0]);
-    {
-        let v: &mut Value<VIn> = unsafe { &mut *w.zalsa.table().get_raw::<Value<VIn>>(w.id) };
-        v.revisions = [Revision::from(r0), Revision::from(r1)];
-    }
-    let before_m = w.zalsa.last_changed_revision(Durability::MEDIUM);
-    let before_h = w.zalsa.last_changed_revision(Durability::HIGH);
-    let now = w.zalsa.runtime_mut().new_revision();
+    let before_m = w.rt.last_changed_revision(Durability::MEDIUM);
+    let before_h = w.rt.last_changed_revision(Durability::HIGH);
+    let now = w.rt.new_revision();
     let new_d: Option<Durability> = if kani::any() { Some(any_durability()) } else { None };
     let val: u32 = kani::any();
-    let old = w.ing.set_field(w.zalsa.runtime_mut(), VInS(w.id), 0, new_d, |f| std::mem::replace(&mut f.0, val));
+    let old = w.ing.set_field(&mut w.rt, VInS(w.id), 0, new_d, |f| std::mem::replace(&mut f.0, val));
     assert!(old == 1);
-    let value: &Value<VIn> = w.zalsa.table().get(w.id);
+    let value: &Value<VIn> = w.rt.table().get(w.id);
     assert!(value.fields == (val, 2), "C01: setter wrote the wrong field or value");
     assert!(value.revisions[0] == now, "C01: written field not stamped with the current revision");
-    assert!(value.revisions[1].as_usize() == r1, "C03: setter touched the other field's revision");
+    assert!(value.revisions[1] == Revision::start(), "C03: setter touched the other field's revision");
     assert!(value.durabilities[0] == new_d.unwrap_or(old_d), "C02: requested durability not installed / old one not kept");
     assert!(value.durabilities[1] == other_d, "C02: setter touched the other field's durability");
     // every durability level <= the OLD durability is marked changed in this revision
     let od = dur_index(old_d);
-    assert!(w.zalsa.last_changed_revision(Durability::LOW) == now);
+    assert!(w.rt.last_changed_revision(Durability::LOW) == now);
     if od >= 1 {
-        assert!(w.zalsa.last_changed_revision(Durability::MEDIUM) == now, "C02: write to a MEDIUM+ field did not invalidate MEDIUM memos");
+        assert!(w.rt.last_changed_revision(Durability::MEDIUM) == now, "C02: write to a MEDIUM+ field did not invalidate MEDIUM memos");
     } else {
-        assert!(w.zalsa.last_changed_revision(Durability::MEDIUM) == before_m);
+        assert!(w.rt.last_changed_revision(Durability::MEDIUM) == before_m);
     }
     if od >= 2 {
-        assert!(w.zalsa.last_changed_revision(Durability::HIGH) == now, "C02: write to a HIGH field did not invalidate HIGH memos");
+        assert!(w.rt.last_changed_revision(Durability::HIGH) == now, "C02: write to a HIGH field did not invalidate HIGH memos");
     } else {
-        assert!(w.zalsa.last_changed_revision(Durability::HIGH) == before_h);
+        assert!(w.rt.last_changed_revision(Durability::HIGH) == before_h);
     }
-    assert!(crate::runtime::verif::inv(w.zalsa.runtime()), "C02: runtime revision invariant broken by the setter");
+    assert!(crate::runtime::verif::inv(&w.rt), "C02: runtime revision invariant broken by the setter");
     kani::cover!(od == 2 && new_d == Some(Durability::LOW));
     kani::cover!(od == 0 && new_d == Some(Durability::NEVER_CHANGE));
     kani::cover!(new_d.is_none() && od == 1);
@@ -150,18 +149,20 @@ fn c01_o3_field_change_test() {
     let mut w = world(old_d, any_durability(), 1, 1);
     let r1 = any_field_rev(w.revs[0]);
     {
-        let v: &mut Value<VIn> = unsafe { &mut *w.zalsa.table().get_raw::<Value<VIn>>(w.id) };
+        // SAFETY: single-threaded.
+        let v: &mut Value<VIn> = unsafe { &mut *w.rt.table().get_raw::<Value<VIn>>(w.id) };
         v.revisions[1] = Revision::from(r1);
     }
-    let now = w.zalsa.runtime_mut().new_revision();
-    let _ = w.ing.set_field(w.zalsa.runtime_mut(), VInS(w.id), 0, None, |f| f.0 = kani::any());
+    let now = w.rt.new_revision();
+    let _ = w.ing.set_field(&mut w.rt, VInS(w.id), 0, None, |f| f.0 = kani::any());
+    let (zalsa, ing, id) = into_zalsa(w);
     let f0 = FieldIngredientImpl::<VIn>::new(IngredientIndex::new(0), 0);
     let f1 = FieldIngredientImpl::<VIn>::new(IngredientIndex::new(0), 1);
     let q: usize = kani::any();
     kani::assume(1 <= q && q <= now.as_usize());
     // SAFETY: the field ingredients ignore their database argument.
-    let c0 = unsafe { f0.maybe_changed_after(&w.zalsa, dangling_raw_db(), w.id, Revision::from(q)) };
-    let c1 = unsafe { f1.maybe_changed_after(&w.zalsa, dangling_raw_db(), w.id, Revision::from(q)) };
+    let c0 = unsafe { f0.maybe_changed_after(&zalsa, dangling_raw_db(), id, Revision::from(q)) };
+    let c1 = unsafe { f1.maybe_changed_after(&zalsa, dangling_raw_db(), id, Revision::from(q)) };
     if q < now.as_usize() {
         assert!(!c0.is_unchanged(), "C01: a written input field is reported unchanged to a reader verified before the write");
     } else {
@@ -170,7 +171,8 @@ fn c01_o3_field_change_test() {
     assert!(c1.is_unchanged() == (r1 <= q), "C03/C01: writing one field altered the change test of another field");
     kani::cover!(q < now.as_usize() && r1 <= q);
     kani::cover!(q == now.as_usize());
-    std::mem::forget(w);
+    std::mem::forget(ing);
+    std::mem::forget(zalsa);
 }
 
 // @verif prop=C02 obl=O6 tier=quick bounds="field durability NEVER_CHANGE; every requested durability (4 + None) and value; arbitrary INV runtime state" covers=0/1
@@ -182,9 +184,9 @@ fn c01_o3_field_change_test() {
 #[kani::stub(real_catch_unwind, stub_catch_unwind)]
 fn c02_o6_set_never_change_field_panics() {
     let mut w = world(Durability::NEVER_CHANGE, any_durability(), 1, 1);
-    w.zalsa.runtime_mut().new_revision();
+    w.rt.new_revision();
     let new_d: Option<Durability> = if kani::any() { Some(any_durability()) } else { None };
-    let _ = w.ing.set_field(w.zalsa.runtime_mut(), VInS(w.id), 0, new_d, |f| f.0 = kani::any());
+    let _ = w.ing.set_field(&mut w.rt, VInS(w.id), 0, new_d, |f| f.0 = kani::any());
     kani::cover!(true, "MUST-BE-UNREACHABLE: set_field on a NEVER_CHANGE field returned");
     std::mem::forget(w);
 }
